@@ -459,26 +459,8 @@ def wl_memcheck(u):
         L("ellswift_decode", b32(v) + b32(subs[(subs.index(v) + 3) % len(subs)])); L("musig_pubnonce_parse", b'\x02' + b32(v) + b'\x03' + b32(v)); L("musig_aggnonce_parse", bytes(33) + b'\x02' + b32(v))
         L("s2c_opening_parse", b'\x02' + b32(v)); L("seckey_verify", b32(v)); L("seckey_tweak_add", sk, b32(v)); L("pubkey_tweak_mul", pkX, b32(v)); L("keypair_create", b32(v))
         L("ecdh", pkX, b32(v), 0); L("halfagg_verify", b'', b'', 0, b32(v)); L("wl_parse", b'\x01' + b32(v) + b32(v))
-    path = build.build("vgv", ctx.repo)
-    tmpd = os.path.join(build.CACHE, "tmp"); os.makedirs(tmpd, exist_ok=True)
-    with tempfile.NamedTemporaryFile("w", dir=tmpd, suffix=".vgscript", delete=False) as f: f.write("\n".join(lines) + "\n"); script = f.name
-    try:
-        with open(script) as fin:
-            r = subprocess.run(["valgrind", "-q", "--error-exitcode=0", "--track-origins=no", path], stdin=fin, capture_output=True, text=True, timeout=1500)
-    except subprocess.TimeoutExpired:
-        from vlib.runner import Inconclusive
-        raise Inconclusive("memcheck replay timed out")
-    finally:
-        os.unlink(script)
-    replies = [l for l in r.stdout.splitlines() if l.startswith(("ok", "ERR"))]
-    ctx.bulk("memcheck_replay", "boundary_substitutions", len(replies), "vgv:%d" % ctx.seed); ctx.count("memcheck_replayed_commands", len(replies))
-    nrep = r.stderr.count("== ") and len([l for l in r.stderr.splitlines() if "uninitialised" in l or "Invalid read" in l or "Invalid write" in l])
-    ctx.count("memcheck_reports", nrep)
-    if nrep or r.returncode != 0 or len(replies) < len(lines):
-        first = r.stderr[:3000]
-        import re as _re
-        fr = _re.findall(r"(?:at|by) 0x[0-9A-F]+: (\S+)", first)[:3]
-        ctx.fail("C07:memcheck:%s:%s" % ("report" if nrep else "process_died", "/".join(fr[:2]) if fr else "noframes"), "replayed %d of %d commands, rc=%d, %d memcheck reports\n%s" % (len(replies), len(lines), r.returncode, nrep, first), cmds=lines[max(0, len(replies) - 3):len(replies) + 1], config="vgv")
+    from vlib.runner import memcheck_replay
+    memcheck_replay(ctx, lines, "boundary_substitutions")
 
 def libfuzzer(ctx):
     """thorough tier: libFuzzer over the same entry-point families (shim/fuzzdrv.c), bounded by -runs"""
